@@ -1,13 +1,13 @@
 package sim
 
 import (
-	"path/filepath"
-	"strings"
 	"encoding/json"
 	"fmt"
 	"os"
 	"os/exec"
+	"path/filepath"
 	"strconv"
+	"strings"
 	"sync"
 	"testing"
 	"time"
